@@ -9,7 +9,15 @@
     directory operations executed since (`link` by create, `rename`).
   * Operations act through the single open descriptor `fd` (a snapshot run
     opens exactly one file), as the real calls do: `write`/`fsync` keep
-    addressing the same inode after a `rename`.
+    addressing the same inode after a `rename`.  The descriptor carries a file
+    position: `open` puts it at 0 and a `write` OVERWRITES in place from there
+    (what is beyond the written range stays).  `open(O_CREAT|O_TRUNC)` of an
+    existing name empties that inode first; without `O_TRUNC` the old bytes
+    stay and a shorter new content keeps the stale tail.
+  * A machine that crashed and restarted is again a settled disk (`crashFS`):
+    the directory version that reached the disk, every inode cut to what
+    reached the disk, nothing open.  Temp files of attempts that crashed before
+    their rename therefore PERSIST into the later attempts (`runHist`).
 
   Crash states.  A crash after the first `i` operations of a sequence leaves
     - directory: `dir0` with the first `j` logged directory operations applied
@@ -18,10 +26,11 @@
     - every inode: its synced prefix plus any `m` further bytes
       (`data.take (synced + m)`), for any `m`.
   A crash *during* a `write` is a crash after a shorter write, which the data
-  prefixes already cover; `rename`, `link` are atomic.  `create` on an existing
-  name truncates that inode at once (simplification: truncation is durable on
-  return in both models; only sequences that open the target directly are
-  affected, and those are torn in either reading).
+  prefixes already cover; `rename`, `link` are atomic.  `create … trunc` on an
+  existing name truncates that inode at once (simplification: truncation is
+  durable on return in both models; only sequences that open the target
+  directly are affected, and those are torn in either reading).  A write into
+  the synced part of an inode makes it dirty from there (`min synced off`).
   Core Lean only.
 -/
 import AM.Model.Snapshot
@@ -59,8 +68,8 @@ def applyDirOp (d : Dir) : DirOp → Dir
     | none => d
 
 inductive Op where
-  | create (p : String)       -- open(p, O_RDWR|O_CREAT|O_TRUNC)
-  | write (d : Bytes)         -- on the open descriptor
+  | create (p : String) (trunc : Bool)   -- open(p, O_RDWR|O_CREAT [|O_TRUNC]); position 0
+  | write (d : Bytes)         -- on the open descriptor, at its position
   | fsync                     -- on the open descriptor (fdatasync counts as fsync)
   | close
   | rename (p q : String)
@@ -70,7 +79,7 @@ structure FS where
   inodes : List Inode := []
   dir0   : Dir := []
   log    : List DirOp := []
-  fd     : Option Nat := none
+  fd     : Option (Nat × Nat) := none      -- open descriptor: inode, file position
   deriving Repr
 
 /-- directory after the first `j` logged directory operations -/
@@ -84,19 +93,27 @@ def modifyInode (l : List Inode) (id : Nat) (f : Inode → Inode) : List Inode :
   | some ino => l.set id (f ino)
   | none => l
 
+/-- `pwrite`-like: `d` replaces the bytes of `data` from `off` on; what lies beyond stays -/
+def overwrite (data : Bytes) (off : Nat) (d : Bytes) : Bytes :=
+  data.take off ++ d ++ data.drop (off + d.length)
+
 def step (fs : FS) : Op → FS
-  | .create p =>
+  | .create p trunc =>
     match fs.dirNow.get p with
-    | some id => { fs with inodes := modifyInode fs.inodes id (fun _ => ⟨[], 0⟩), fd := some id }
+    | some id => { fs with inodes := if trunc then modifyInode fs.inodes id (fun _ => ⟨[], 0⟩) else fs.inodes,
+                           fd := some (id, 0) }
     | none => { fs with inodes := fs.inodes ++ [⟨[], 0⟩], log := fs.log ++ [.link p fs.inodes.length],
-                        fd := some fs.inodes.length }
+                        fd := some (fs.inodes.length, 0) }
   | .write d =>
     match fs.fd with
-    | some id => { fs with inodes := modifyInode fs.inodes id (fun ino => { ino with data := ino.data ++ d }) }
+    | some (id, off) =>
+      { fs with inodes := modifyInode fs.inodes id
+                  (fun ino => ⟨overwrite ino.data off d, min ino.synced off⟩),   -- overwritten bytes are dirty again
+                fd := some (id, off + d.length) }
     | none => fs
   | .fsync =>
     match fs.fd with
-    | some id => { fs with inodes := modifyInode fs.inodes id (fun ino => { ino with synced := ino.data.length }) }
+    | some (id, _) => { fs with inodes := modifyInode fs.inodes id (fun ino => { ino with synced := ino.data.length }) }
     | none => fs
   | .close => { fs with fd := none }
   | .rename p q => { fs with log := fs.log ++ [.rename p q] }
@@ -113,11 +130,46 @@ def crashRead (fs : FS) (j m : Nat) (p : String) : Option Bytes :=
     | none => none
     | some ino => some (ino.data.take (ino.synced + m))
 
-/-- the operation sequence of one snapshot: `openReplace` (create a fresh temp
-    name), `io.Copy` (zero or more writes), `replaceFile.Close` (fsync, close,
-    rename onto the target) -/
-def snapshotOps (tmp target : String) (chunks : List Bytes) : List Op :=
-  .create tmp :: (chunks.map .write ++ [.fsync, .close, .rename tmp target])
+/-- the operation sequence of one snapshot: `openReplace` (`os.Create` of the
+    temp name: `O_CREAT|O_TRUNC` in the code as it is), `io.Copy` (zero or more
+    writes), `replaceFile.Close` (fsync, close, rename onto the target) -/
+def snapshotOps (tmp : String) (trunc : Bool) (target : String) (chunks : List Bytes) : List Op :=
+  .create tmp trunc :: (chunks.map .write ++ [.fsync, .close, .rename tmp target])
+
+/-! ### histories of attempts, some of which crash -/
+
+/-- The machine after a crash and restart: directory version `j` reached the
+    disk, inode `id` kept its synced prefix and `ms id` further bytes; all of
+    that is durable now, nothing is open. -/
+def crashFS (fs : FS) (j : Nat) (ms : Nat → Nat) : FS :=
+  { inodes := fs.inodes.mapIdx fun id ino => ⟨ino.data.take (ino.synced + ms id), (ino.data.take (ino.synced + ms id)).length⟩,
+    dir0 := fs.dirAt j, log := [], fd := none }
+
+/-- One snapshot attempt: the temp name and open flag it uses, the bytes it
+    writes, and — if the machine crashes during it — after how many operations
+    (`i`), with how much of the directory log (`j`) and of each inode's unsynced
+    data (`ms`) on disk. -/
+structure Attempt where
+  tmp    : String
+  trunc  : Bool
+  chunks : List Bytes
+  crash  : Option (Nat × Nat × (Nat → Nat)) := none
+
+def runAttempt (target : String) (fs : FS) (a : Attempt) : FS :=
+  match a.crash with
+  | none => run fs (snapshotOps a.tmp a.trunc target a.chunks)
+  | some (i, j, ms) => crashFS (run fs ((snapshotOps a.tmp a.trunc target a.chunks).take i)) j ms
+
+/-- a whole life of the data directory: attempts that complete and attempts that crash, in any order -/
+def runHist (target : String) (fs : FS) (as : List Attempt) : FS := as.foldl (runAttempt target) fs
+
+/-- the discipline every attempt of a history must keep, evaluated in the state it
+    starts in (decidable form of `HistOK`, C11): temp name ≠ target, and the temp
+    file is empty when written — truncating open, or a name that does not exist -/
+def histOKb (target : String) : FS → List Attempt → Bool
+  | _, [] => true
+  | fs, a :: rest =>
+    (a.tmp != target) && (a.trunc || (fs.dirNow.get a.tmp).isNone) && histOKb target (runAttempt target fs a) rest
 
 /-- all crash coordinates `(i, j, m)` of an operation sequence started in `fs0`
     (for the engines: enumeration of every crash state) -/
